@@ -493,14 +493,20 @@ def _input_name(feature: dict, via: str) -> str:
         character replacement is the code's own (only its result is judged, by gene_illegal) """
     from antismash.common.secmet.features import CDSFeature
     locus = feature.get("locus_tag")
-    if via in ("biopython", "parse") and locus:
-        locus = locus.replace(" ", "") or None     # documented: line-break spaces are removed from locus tags
-    if not (locus or feature.get("gene") or feature.get("protein_id")):
+    gene = feature.get("gene")
+    protein_id = feature.get("protein_id")
+    if via in ("biopython", "parse"):
+        # documented: line-break spaces are removed from locus tags when a feature is read; since /repo f15eaedf the
+        # same holds for /gene and /protein_id (a long value is wrapped by the writer and re-joined with a blank)
+        locus = (locus or "").replace(" ", "") or None
+        gene = (gene or "").replace(" ", "") or None
+        protein_id = (protein_id or "").replace(" ", "") or None
+    if not (locus or gene or protein_id):
         start = min(p[0] for p in feature["loc"]["parts"])
         end = max(p[1] for p in feature["loc"]["parts"])
         return f"cds{start}_{end}"
     lone = CDSFeature(_gene_loc(feature["loc"]), translation=_translation(feature), locus_tag=locus,
-                      gene=feature.get("gene"), protein_id=feature.get("protein_id"))
+                      gene=gene, protein_id=protein_id)
     return lone.get_name()
 
 
